@@ -35,20 +35,71 @@ func wildcard(alphabet string) byte {
 	return 'N'
 }
 
-// keyOf: the comparison key of a sequence. lowerToo: the reading under which the lower case
-// wildcard counts as well (the documentation writes N/X in upper case only)
-func keyOf(seq string, nAsGap bool, alphabet string, lowerToo bool) string {
-	if !nAsGap {
+// keyWith: the comparison key of a sequence when the characters of wild count as gaps
+func keyWith(seq string, wild string) string {
+	if wild == "" {
 		return seq
 	}
-	w := wildcard(alphabet)
 	b := []byte(seq)
 	for i, c := range b {
-		if c == w || (lowerToo && c == w+32) {
+		if strings.IndexByte(wild, c) >= 0 {
 			b[i] = '-'
 		}
 	}
 	return string(b)
+}
+
+// Container modes. "nt" / "aa": built with that alphabet. "unknown": built with align.UNKNOWN and
+// never auto-detected. "both-ctor": NewAlign(align.BOTH). "auto": built with align.UNKNOWN, then
+// AutoAlphabet() on the residues.
+//
+// definiteAlphabet: which alphabet a mode fixes beyond doubt, "" when it does not. Auto-detection is
+// beyond doubt only when the residues contain a letter that exists in one alphabet alone and every
+// other letter fits that alphabet.
+func definiteAlphabet(mode string, rows []gen.Row) string {
+	switch mode {
+	case "nt", "aa":
+		return mode
+	case "auto":
+		all := ""
+		for _, r := range rows {
+			all += strings.ToUpper(r.Seq)
+		}
+		in := func(set string) bool {
+			for i := 0; i < len(all); i++ {
+				if strings.IndexByte(set, all[i]) < 0 {
+					return false
+				}
+			}
+			return true
+		}
+		if strings.ContainsAny(all, "QEILFPZ") && in("ARNDCQEGHILKMFPSTWYVBZX-") {
+			return "aa"
+		}
+		if strings.Contains(all, "U") && in("ACGTURYSWKMBDHVN-") {
+			return "nt"
+		}
+	}
+	return ""
+}
+
+// readingsFor: the sets of characters that nAsGap may treat as gaps, the preferred reading first.
+// With a definite alphabet: its upper case wildcard ("X/N (depending on alphabet)"); the lower case
+// wildcard as well is a second, open reading. Without one (the doc comment of Deduplicate says
+// "considers N characters / X characters as identical to GAPs" and nothing about an unknown
+// alphabet): no wildcard, N, X or both, each with or without lower case. In every reading a
+// difference in any other residue keeps two sequences apart and kept rows keep their residues.
+func readingsFor(mode string, rows []gen.Row, nAsGap bool) (readings []string, open bool) {
+	if !nAsGap {
+		return []string{""}, false
+	}
+	switch definiteAlphabet(mode, rows) {
+	case "nt":
+		return []string{"N", "Nn"}, false
+	case "aa":
+		return []string{"X", "Xx"}, false
+	}
+	return []string{"", "N", "X", "NX", "Nn", "Xx", "NXnx"}, true
 }
 
 type dedupModel struct {
@@ -115,14 +166,13 @@ func groupsUpToOrder(got, want [][]string) bool {
 	return true
 }
 
-// judgeDedup compares an observed result (rows left in the container, groups) with the model
-func judgeDedup(o *pbt.Outcome, rows []gen.Row, nAsGap bool, alphabet string, gotRows []gen.Row, gotGroups [][]string, alsoNoReplacement bool) error {
-	readings := []dedupModel{refDedup(rows, func(s string) string { return keyOf(s, nAsGap, alphabet, false) })}
-	if nAsGap {
-		readings = append(readings, refDedup(rows, func(s string) string { return keyOf(s, nAsGap, alphabet, true) }))
-		if alsoNoReplacement {
-			readings = append(readings, refDedup(rows, func(s string) string { return s }))
-		}
+// judgeDedup compares an observed result (rows left in the container, groups) with the model under
+// each admitted reading of the wildcard
+func judgeDedup(o *pbt.Outcome, rows []gen.Row, wilds []string, gotRows []gen.Row, gotGroups [][]string) error {
+	var readings []dedupModel
+	for _, w := range wilds {
+		w := w
+		readings = append(readings, refDedup(rows, func(s string) string { return keyWith(s, w) }))
 	}
 	var firstErr error
 	for ri, m := range readings {
@@ -130,6 +180,7 @@ func judgeDedup(o *pbt.Outcome, rows []gen.Row, nAsGap bool, alphabet string, go
 		switch {
 		case !gen.SameRows(gotRows, m.kept):
 			err = fmt.Errorf("rows kept: %s\n want (first occurrence of each distinct sequence, original order): %s", gen.Show(gotRows), gen.Show(m.kept))
+		case gotGroups == nil: // only the rows are observable
 		case sameGroups(gotGroups, m.groups):
 		case groupsUpToOrder(gotGroups, m.groups):
 			o.Ambiguous++
@@ -140,7 +191,7 @@ func judgeDedup(o *pbt.Outcome, rows []gen.Row, nAsGap bool, alphabet string, go
 		if err == nil {
 			if ri > 0 && !(gen.SameRows(m.kept, readings[0].kept) && sameGroups(m.groups, readings[0].groups)) {
 				o.Ambiguous++
-				o.Class("open-reading-of-n-as-gap(accepted)")
+				o.Class("open-reading-of-n-as-gap(accepted):wildcards=%q", wilds[ri])
 			}
 			return nil
 		}
@@ -148,16 +199,32 @@ func judgeDedup(o *pbt.Outcome, rows []gen.Row, nAsGap bool, alphabet string, go
 			firstErr = err
 		}
 	}
+	if len(wilds) > 1 {
+		return fmt.Errorf("%v\n (no admitted reading of the wildcard %q matches)", firstErr, wilds)
+	}
 	return firstErr
 }
 
 // ---- de-duplication through the library ------------------------------------------------------------
 
 type dedupCase struct {
-	Ali    gen.Ali `json:"ali"`
+	Ali    gen.Ali `json:"ali"` // Ali.Alphabet: the alphabet the rows were drawn from ("nt" / "aa")
 	Bag    bool    `json:"bag"`
 	NAsGap bool    `json:"nasgap"`
+	// Mode: how the container gets its alphabet (see definiteAlphabet); "" = Ali.Alphabet
+	Mode string `json:"mode"`
 }
+
+func (c dedupCase) mode() string {
+	if c.Mode == "" {
+		return c.Ali.Alphabet
+	}
+	return c.Mode
+}
+
+// foreignSuffixes: appended to every row so that auto-detection finds letters of neither alphabet
+// (J), of both exclusive kinds (U with E, O with Q), or - the last two - of one kind only
+var foreignSuffixes = []string{"J", "UE", "QO", "Ju", "U", "E"}
 
 // genRows draws rows from a small pool of base sequences, with variants that differ only by the
 // wildcard vs gap, by case, by one residue, or (sequence sets) by being a prefix of another row
@@ -234,19 +301,60 @@ func genDedup(t *rapid.T) dedupCase {
 	c.NAsGap = rapid.Bool().Draw(t, "nasgap")
 	c.Ali.Alphabet = rapid.SampledFrom([]string{"nt", "aa"}).Draw(t, "alphabet")
 	c.Ali.Rows = genRows(t, c.Ali.Alphabet, c.Bag, 10, 12)
+	c.Mode = rapid.SampledFrom([]string{"", "", "", "unknown", "unknown", "both-ctor", "auto", "auto", "auto"}).Draw(t, "mode")
+	if c.Mode == "both-ctor" && c.Bag {
+		c.Mode = "unknown" // NewSeqBag refuses align.BOTH by exiting
+	}
+	if c.Mode == "auto" && rapid.IntRange(0, 3).Draw(t, "foreign") != 0 {
+		suffix := rapid.SampledFrom(foreignSuffixes).Draw(t, "suffix")
+		for i := range c.Ali.Rows {
+			c.Ali.Rows[i].Seq += suffix
+		}
+	}
 	return c
 }
 
 func buildBag(c dedupCase) align.SeqBag {
-	if c.Bag {
-		return gen.BuildBag(c.Ali)
+	a := c.Ali
+	switch c.mode() {
+	case "nt", "aa":
+		a.Alphabet = c.mode()
+	case "auto":
+		a.Alphabet = "auto"
+	case "both-ctor":
+		al := align.NewAlign(align.BOTH)
+		for _, r := range a.Rows {
+			if err := al.AddSequence(r.Name, r.Seq, ""); err != nil {
+				panic("harness: " + err.Error())
+			}
+		}
+		return al
+	default: // "unknown": align.UNKNOWN, no detection
+		a.Alphabet = "unknown"
 	}
-	return gen.MustBuild(c.Ali)
+	if c.Bag {
+		return gen.BuildBag(a)
+	}
+	return gen.MustBuild(a)
 }
 
-func classifyDedup(o *pbt.Outcome, rows []gen.Row, nAsGap bool, alphabet string) {
+func alphabetName(code int) string {
+	switch code {
+	case align.NUCLEOTIDS:
+		return "NUCLEOTIDS"
+	case align.AMINOACIDS:
+		return "AMINOACIDS"
+	case align.BOTH:
+		return "BOTH"
+	case align.UNKNOWN:
+		return "UNKNOWN"
+	}
+	return fmt.Sprint(code)
+}
+
+func classifyDedup(o *pbt.Outcome, rows []gen.Row, nAsGap bool, wild string) {
 	plain := refDedup(rows, func(s string) string { return s })
-	m := refDedup(rows, func(s string) string { return keyOf(s, nAsGap, alphabet, false) })
+	m := refDedup(rows, func(s string) string { return keyWith(s, wild) })
 	o.NonTrivial = len(m.kept) < len(rows) && len(m.kept) >= 2
 	switch {
 	case len(rows) == 1:
@@ -264,7 +372,7 @@ func classifyDedup(o *pbt.Outcome, rows []gen.Row, nAsGap bool, alphabet string)
 	if nAsGap && len(m.kept) < len(rows) {
 		// a kept row that is not the gap-normalised form: original residues must survive
 		for _, r := range m.kept {
-			if keyOf(r.Seq, true, alphabet, false) != r.Seq {
+			if keyWith(r.Seq, wild) != r.Seq {
 				o.Class("kept-row-carries-wildcard")
 				break
 			}
@@ -278,7 +386,7 @@ func classifyDedup(o *pbt.Outcome, rows []gen.Row, nAsGap bool, alphabet string)
 	// non adjacent duplicates, duplicate of a row that is not the first one
 	last := map[string]int{}
 	for i, r := range rows {
-		k := keyOf(r.Seq, nAsGap, alphabet, false)
+		k := keyWith(r.Seq, wild)
 		if j, ok := last[k]; ok && i-j > 1 {
 			o.Class("duplicates-not-adjacent")
 		}
@@ -305,8 +413,13 @@ func checkDedup(c dedupCase) (o pbt.Outcome, err error) {
 		return o, fmt.Errorf("Deduplicate fails: %v", e)
 	}
 	got := gen.Snapshot(sb)
-	if err = judgeDedup(&o, rows, c.NAsGap, c.Ali.Alphabet, got, groups, false); err != nil {
-		return o, err
+	containerAlphabet := alphabetName(sb.Alphabet())
+	wilds, open := readingsFor(c.mode(), rows, c.NAsGap)
+	if groups == nil {
+		groups = [][]string{}
+	}
+	if err = judgeDedup(&o, rows, wilds, got, groups); err != nil {
+		return o, fmt.Errorf("%v\n (container alphabet %s, mode %s, nAsGap %v)", err, containerAlphabet, c.mode(), c.NAsGap)
 	}
 	// the container is consistent with what is left: by name, counts, length
 	if sb.NbSequences() != len(got) {
@@ -347,9 +460,13 @@ func checkDedup(c dedupCase) (o pbt.Outcome, err error) {
 		}
 		seen[g[0]] = true
 	}
-	classifyDedup(&o, rows, c.NAsGap, c.Ali.Alphabet)
+	classifyDedup(&o, rows, c.NAsGap, wilds[0])
 	o.Class("bag=%v", c.Bag)
-	o.Class("nasgap=%v,alphabet=%s", c.NAsGap, c.Ali.Alphabet)
+	o.Class("nasgap=%v,mode=%s", c.NAsGap, c.mode())
+	o.Class("nasgap=%v,container-alphabet=%s", c.NAsGap, containerAlphabet)
+	if open {
+		o.Class("wildcard-open(bag=%v)", c.Bag)
+	}
 	return o, nil
 }
 
@@ -363,7 +480,7 @@ func TestDedupExhaustive(t *testing.T) {
 	if pbt.Thorough() {
 		shapes = append(shapes, shape{5, 2}, shape{4, 3}, shape{3, 4})
 	}
-	pbt.Enumerate(t, "Deduplicate(false/true) on every nucleotide alignment over {A,N,-} of the listed small shapes (up to 4x2 and 3x3; thorough: 5x2, 4x3, 3x4)", func(yield func(dedupCase) bool) {
+	pbt.Enumerate(t, "Deduplicate(false/true) on every alignment over {A,N,-} of the listed small shapes (up to 4x2 and 3x3; thorough: 5x2, 4x3, 3x4), held in a nucleotide alignment, an alignment and a sequence set of unknown alphabet, NewAlign(BOTH) and an auto-detected alignment", func(yield func(dedupCase) bool) {
 		for _, sh := range shapes {
 			cells := sh.n * sh.l
 			total := 1
@@ -382,8 +499,13 @@ func TestDedupExhaustive(t *testing.T) {
 					rows[i] = gen.Row{Name: fmt.Sprintf("r%d", (i+1)%sh.n), Seq: string(b)}
 				}
 				for _, nag := range []bool{false, true} {
-					if !yield(dedupCase{Ali: gen.Ali{Rows: rows, Alphabet: "nt"}, NAsGap: nag}) {
-						return
+					for _, v := range []struct {
+						mode string
+						bag  bool
+					}{{"nt", false}, {"unknown", false}, {"unknown", true}, {"both-ctor", false}, {"auto", false}} {
+						if !yield(dedupCase{Ali: gen.Ali{Rows: rows, Alphabet: "nt"}, NAsGap: nag, Mode: v.mode, Bag: v.bag}) {
+							return
+						}
 					}
 				}
 			}
@@ -395,7 +517,7 @@ func TestDedupExhaustive(t *testing.T) {
 			for _, r := range c.Ali.Rows {
 				sb.WriteString(r.Seq + "/")
 			}
-			o.Key = fmt.Sprintf("%s%v", sb.String(), c.NAsGap)
+			o.Key = fmt.Sprintf("%s%v%s%v", sb.String(), c.NAsGap, c.Mode, c.Bag)
 		}
 		return
 	})
@@ -691,7 +813,7 @@ type cliCase struct {
 	Alphabet  string    `json:"alphabet"`  // what the rows were drawn from
 	Unaligned bool      `json:"unaligned"` // dedup --unaligned
 	NAsGap    bool      `json:"nasgap"`    // dedup --n-as-gap
-	GiveAlpha bool      `json:"givealpha"` // pass --alphabet
+	AlphaFlag string    `json:"alphaflag"` // value of --alphabet: "" (not given), "auto", "nt" or "aa"
 	WithLog   bool      `json:"withlog"`   // -l / --weight-out given
 	ToFile    bool      `json:"tofile"`    // -o given
 	Ragged    bool      `json:"ragged"`    // aligned input whose last row is one residue short: must be refused
@@ -719,12 +841,23 @@ func TestCLI(t *testing.T) {
 					c.Rows[i].Seq += pad
 				}
 			}
-			// --alphabet is read for alignments; given whenever the wildcard matters there
-			c.GiveAlpha = !c.Unaligned && (c.NAsGap || rapid.Bool().Draw(t, "givealpha"))
-			if c.Alphabet == "aa" && !c.GiveAlpha {
-				// a letter that only a protein can contain, in every row: detection is not in question
+			// --alphabet is read for alignments only; without it (or with "auto") the alphabet is detected
+			// from the residues
+			if c.Unaligned {
+				c.AlphaFlag = rapid.SampledFrom([]string{"", "", "auto"}).Draw(t, "alphaflag")
+			} else {
+				c.AlphaFlag = rapid.SampledFrom([]string{c.Alphabet, c.Alphabet, c.Alphabet, "", "auto"}).Draw(t, "alphaflag")
+			}
+			if c.AlphaFlag == "" || c.AlphaFlag == "auto" {
+				suffix := ""
+				switch rapid.IntRange(0, 2).Draw(t, "detected") {
+				case 0: // letters of neither alphabet, or of both exclusive kinds: the alphabet stays unknown
+					suffix = rapid.SampledFrom(foreignSuffixes).Draw(t, "suffix")
+				case 1: // a letter that only one alphabet contains: detection is not in question
+					suffix = map[string]string{"aa": "E", "nt": "U"}[c.Alphabet]
+				}
 				for i := range c.Rows {
-					c.Rows[i].Seq += "E"
+					c.Rows[i].Seq += suffix
 				}
 			}
 		} else {
@@ -736,7 +869,9 @@ func TestCLI(t *testing.T) {
 			}
 			a := genPatterns(t, chars, 6, rapid.SampledFrom([]int{4, 14, 14, 14, 90}).Draw(t, "maxlen"))
 			c.Rows = a.Rows
-			c.GiveAlpha = rapid.Bool().Draw(t, "givealpha")
+			if rapid.Bool().Draw(t, "givealpha") {
+				c.AlphaFlag = c.Alphabet
+			}
 		}
 		if !c.Unaligned && len(c.Rows) >= 2 && len(c.Rows[len(c.Rows)-1].Seq) >= 2 && rapid.IntRange(0, 14).Draw(t, "ragged") == 0 {
 			c.Ragged = true
@@ -763,8 +898,8 @@ func TestCLI(t *testing.T) {
 		} else if c.WithLog {
 			args = append(args, "--weight-out", logf)
 		}
-		if c.GiveAlpha {
-			args = append(args, "--alphabet", c.Alphabet)
+		if c.AlphaFlag != "" {
+			args = append(args, "--alphabet", c.AlphaFlag)
 		}
 		if c.ToFile {
 			args = append(args, "-o", outf)
@@ -814,31 +949,22 @@ func TestCLI(t *testing.T) {
 				// only the rows are observable: take the groups of the reading that matches them
 				groups = nil
 			}
-			// --unaligned reads FASTA without --alphabet: for nucleotide rows (all of whose letters are
-			// amino acid codes too) the reading "no wildcard at all" is accepted as well
-			openAlphabet := c.Unaligned && c.NAsGap && c.Alphabet == "nt"
-			if c.WithLog {
-				if err = judgeDedup(&o, c.Rows, c.NAsGap, c.Alphabet, got, groups, openAlphabet); err != nil {
-					return o, fmt.Errorf("goalign %v: %v\n input: %s", args, err, gen.Show(c.Rows))
-				}
-			} else {
-				ok := false
-				var want []gen.Row
-				for _, lowerToo := range []bool{false, true} {
-					m := refDedup(c.Rows, func(s string) string { return keyOf(s, c.NAsGap, c.Alphabet, lowerToo) })
-					if want == nil {
-						want = m.kept
-					}
-					ok = ok || gen.SameRows(got, m.kept)
-				}
-				if openAlphabet {
-					ok = ok || gen.SameRows(got, refDedup(c.Rows, func(s string) string { return s }).kept)
-				}
-				if !ok {
-					return o, fmt.Errorf("goalign %v: rows kept: %s\n want: %s\n input: %s", args, gen.Show(got), gen.Show(want), gen.Show(c.Rows))
-				}
+			mode := "auto"
+			if c.AlphaFlag == "nt" || c.AlphaFlag == "aa" {
+				mode = c.AlphaFlag
 			}
-			classifyDedup(&o, c.Rows, c.NAsGap, c.Alphabet)
+			wilds, open := readingsFor(mode, c.Rows, c.NAsGap)
+			if c.WithLog && groups == nil {
+				groups = [][]string{}
+			}
+			if err = judgeDedup(&o, c.Rows, wilds, got, groups); err != nil {
+				return o, fmt.Errorf("goalign %v: %v\n input: %s", args, err, gen.Show(c.Rows))
+			}
+			classifyDedup(&o, c.Rows, c.NAsGap, wilds[0])
+			o.Class("dedup:nasgap=%v,alphabet-flag=%q", c.NAsGap, c.AlphaFlag)
+			if open {
+				o.Class("wildcard-open(unaligned=%v)", c.Unaligned)
+			}
 			o.Class("dedup:unaligned=%v,nasgap=%v", c.Unaligned, c.NAsGap)
 		} else {
 			if c.WithLog {
